@@ -13,7 +13,7 @@
     [astep g op] = the corresponding list operation on the forest. *)
 From Coq Require Import NArith List.
 From FF Require Import Lib.Word Gen.Consts_aml_tree Aml.Stream Aml.Tree Aml.TreeSpec
-                       Aml.TreeProofs Aml.TreeProofsOps Aml.TreeProofsFind Aml.TreeProofsAnc.
+                       Aml.TreeProofs Aml.TreeProofsOps Aml.TreeProofsFind Aml.TreeProofsAnc Aml.TreeProofsNew.
 Import ListNotations.
 Local Open Scope N_scope.
 
@@ -133,3 +133,16 @@ Theorem C13_closest_named_ancestor :
     ClosestNamedAncestor t (Some p) = Ok (enc_result (closest_ref t g p)).
 Proof. intros V t g p HR Hi. exact (ClosestNamedAncestor_spec t g HR Hi p). Qed.
 Print Assumptions C13_closest_named_ancestor.
+
+(** An object made by newObject is unnamed and unlinked whether its slot is fresh or a reused slot of the
+    free list: it carries the zero name (which no name segment of a lookup equals), the requested opcode and
+    table handle, no value and no links.  (Before /repo d18acb2 a reused slot kept the name of the freed
+    object: create a named object, free it, call newObject - Find resolved the old name to the new object.) *)
+Theorem C13_newobject_unnamed :
+  forall (V : Type) (t t' : ObjectTree V) (opcode tableHandle p : N),
+    newObject t opcode tableHandle = Ok (t', p) ->
+    exists o, get t' p = Some o /\ o_name o = name_zero /\ o_opcode o = opcode /\ o_tableHandle o = tableHandle /\
+              o_value o = None /\ o_parent o = InvalidIndex /\ o_prev o = InvalidIndex /\ o_next o = InvalidIndex /\
+              o_first o = InvalidIndex /\ o_last o = InvalidIndex.
+Proof. intros V t t' opcode tableHandle p. exact (newObject_unnamed t t' opcode tableHandle p). Qed.
+Print Assumptions C13_newobject_unnamed.
